@@ -31,8 +31,16 @@ def plan(tier, seed):
   return [{"n": N[tier], "shard": i} for i in range(16)]
 
 
+def _norm_style(k, v):
+  # unspecified text-decoration components left at the root of inheritance mean "not decorated" (abstention of the reference)
+  if k == "TextDecoration" and isinstance(v, tuple) and v and v[0] == "D":
+    return ("D", v[1], tuple((f, False if x is None else x) for f, x in v[2]))
+  return v
+
+
 def canon_el(e: absdoc.AbsEl):
-  return (e.kind, e.id, e.text, e.space, e.lang, e.begin, e.end, e.region_id, tuple(sorted(e.styles.items(), key=lambda kv: kv[0])),
+  return (e.kind, e.id, e.text, e.space, e.lang, e.begin, e.end, e.region_id,
+          tuple(sorted(((k, _norm_style(k, v)) for k, v in e.styles.items()), key=lambda kv: kv[0])),
           tuple(e.anims), tuple(canon_el(c) for c in e.children))
 
 
@@ -67,6 +75,9 @@ def canon_isd(isd, drop_empty_regions=False, normalize_ruby=False):
     for r in a.regions:
       drop_empty_ruby(r)
   regs = [r for r in a.regions if (r.children or not drop_empty_regions) and paints(r)]
+  if normalize_ruby:
+    # a whenActive region whose only content was empty ruby bases (not judged) counts as content-less
+    regs = [r for r in regs if r.children or r.styles.get("ShowBackground") != ("E", "ShowBackgroundType", "whenActive")]
   return (a.params(), tuple(canon_el(r) for r in regs))
 
 
@@ -248,12 +259,12 @@ def check_doc(ctx, adoc0, classes=()):
       got = canon_isd(isd)
       try:
         exp_cached = canon_isd(ISD.from_model(doc, s, sig))
-        exp_plain = canon_isd(ISD.from_model(doc, s), drop_empty_regions=True)
+        exp_plain = canon_isd(ISD.from_model(doc, s), drop_empty_regions=True, normalize_ruby=True)
       except Exception:  # pylint: disable=broad-except
         continue
       if got != exp_cached:
         ctx.violation("sequence-entry-differs", f"sequence entry at {s} is not the snapshot ISD.from_model(doc, {s}, sig)", dict(payload, t=str(s)))
-      elif canon_isd(isd, drop_empty_regions=True) != exp_plain:
+      elif canon_isd(isd, drop_empty_regions=True, normalize_ruby=True) != exp_plain:
         ctx.violation("sequence-entry-differs-uncached", f"sequence entry at {s} differs from the uncached snapshot beyond content-less regions",
                       dict(payload, t=str(s)))
   if nontrivial and len(offsets) >= 3 and len(ctx.samples) < 3:
